@@ -40,9 +40,13 @@ func (m *Model) PullOccupancy(ctx context.Context, opts ...resource.ReadOption) 
 		defer close(send)
 		for change := range recv {
 			value := change.Value.(*traits.Occupancy)
-			send <- PullOccupancyChange{
+			select {
+			case <-ctx.Done():
+				return
+			case send <- PullOccupancyChange{
 				Value:      value,
 				ChangeTime: change.ChangeTime,
+			}:
 			}
 		}
 	}()
